@@ -156,7 +156,7 @@ func NewAux(t Tag, value interface{}) (Aux, error) {
 func ParseAux(text []byte) (Aux, error) {
 	// TG:T:v...
 	// 012345...
-	if len(text) < 6 || text[2] != ':' || text[4] != ':' {
+	if len(text) < 5 || text[2] != ':' || text[4] != ':' {
 		return nil, fmt.Errorf("sam: invalid aux tag field: %q", text)
 	}
 	txt := text[5:]
@@ -193,12 +193,12 @@ func ParseAux(text []byte) (Aux, error) {
 		}
 		value = Hex(b)
 	case 'B':
-		if txt[1] != ',' {
+		if len(txt) == 0 || (len(txt) > 1 && txt[1] != ',') {
 			return nil, fmt.Errorf("sam: invalid aux tag field: %q", text)
 		}
-		nf := bytes.Split(txt[2:], []byte{','})
-		if len(nf) == 0 {
-			return nil, fmt.Errorf("sam: invalid aux tag field: %q", text)
+		var nf [][]byte
+		if len(txt) > 1 {
+			nf = bytes.Split(txt[2:], []byte{','})
 		}
 		switch txt[0] {
 		case 'c':
